@@ -47,6 +47,13 @@ def cases(tier, seed):
     B = rs("x/b", [["string", "t"], ["path", "p"], ["string", "s"]], ["'b\\n2'", "'/p'", "'sb'"])
     A2 = rs("x/a", [["string", "s"], ["varint", "n"], ["string", "extra"]], ["'a2'", "2", "'e'"])
     shapes = {"A": A, "B": B, "A2": A2}
+    XA = dict(rs("x/a", [["string", "s"], ["varint", "n"]], ["chr(0xd800)", "3"]), xfail=True)  # cannot be encoded: the write raises
+    XB = dict(rs("x/b", [["string", "t"], ["path", "p"], ["string", "s"]], ["'t'", "'/p'", "chr(0xdfff)"]), xfail=True)
+    xshapes = {"A": A, "B": B, "XA": XA, "XB": XB}
+    for k in (1, 2, 3):
+        for seq in itertools.product(xshapes, repeat=k):
+            if any(x.startswith("X") for x in seq):
+                yield {"kind": "seq", "t": "refused-seq", "shape": list(seq), "records": [xshapes[x] for x in seq]}
     for k in (1, 2, 3, 4):
         for seq in itertools.product(shapes, repeat=k):
             yield {"kind": "seq", "t": "seq", "shape": list(seq), "records": [shapes[s] for s in seq]}
@@ -65,6 +72,12 @@ def cases(tier, seed):
                                                  [["a", "b"], ["my col", "b-c"], ["x(y)", "n"], ["1st", "_hid", "ok"], ["A", "a2", "c"]],
                                                  [[["v1", "v2", "v3"], ["w1", "w2", "w3"]], [["1", "2", "3"], ["x y", "z", "q"], ["e", "f", "g"]]]):
         yield {"kind": "csvread", "t": "csvread", "delim": delim, "header": header, "rows": [r[: len(header)] for r in rows]}
+    # the headerless door: column names from the caller, every row of the file is data - also a first row that "looks like" a header
+    for delim, door in itertools.product([",", ";"], ["uri", "kw"]):
+        for rows in ([["unknown", "n/a", "-"], ["web01", "20", "up"], ["web02", "30", "up"], ["web03", "40", "down"]],
+                     [["host", "port", "state"], ["web01", "20", "up"], ["web02", "30", "up"]], [["1", "2", "3"], ["4", "5", "6"]],
+                     [["name", "count", "ok"], ["a", "1", "x"], ["b", "22", "y"], ["c", "333", "z"], ["d", "4444", "w"]], [["only", "one", "row"]]):
+            yield {"kind": "csvread", "t": "csvread-headerless", "delim": delim, "header": ["c1", "c2", "c3"], "rows": rows, "headerless": door}
 
 
 def slot_names(r):
@@ -114,9 +127,20 @@ def csv_check(records, fields, exclude, lt, case, viol):
     label = "csv"
     try:
         try:
+            xf = {i for i, sp in enumerate(case["records"]) if sp.get("xfail")}
+            accepted_x = set()
             w = RecordWriter("csvfile://" + p, **kw)
-            for r in records:
-                w.write(r)
+            for i, r in enumerate(records):
+                if i in xf:
+                    # a record the writer cannot encode: write() raises, the caller skips the record and carries on
+                    # (with the offending field projected away the record is writable: then its row is expected)
+                    try:
+                        w.write(r)
+                        accepted_x.add(i)
+                    except (UnicodeError, ValueError):
+                        pass
+                else:
+                    w.write(r)
             w.flush()
             w.close()
         except Exception as e:  # noqa: BLE001
@@ -127,11 +151,13 @@ def csv_check(records, fields, exclude, lt, case, viol):
         # expected rows
         want = []
         prev = None
-        for r in records:
+        for i, r in enumerate(records):
             names = [k for k in (fields if fields else slot_names(r)) if k in slot_names(r) and not (exclude and k in exclude)]
             if prev is None or prev != (r._desc.name, tuple(r._desc.get_field_tuples())):
                 want.append(list(names))
                 prev = (r._desc.name, tuple(r._desc.get_field_tuples()))
+            if i in xf and i not in accepted_x:
+                continue  # its header may stand (the type was announced), its row may not
             want.append([textform(getattr(r, k)) for k in names])
         real_lt = (lt or "\r\n").replace("\\r", "\r").replace("\\n", "\n").replace("\\t", "\t")
         if rows != want:
@@ -283,11 +309,18 @@ def csvread_check(case, viol):
     p = os.path.join(d, "c20r-%d-%d.csv" % (os.getpid(), _n[0]))
     try:
         with open(p, "w", newline="") as f:
-            f.write(case["delim"].join(case["header"]) + "\r\n")
+            if not case.get("headerless"):
+                f.write(case["delim"].join(case["header"]) + "\r\n")
             for row in case["rows"]:
                 f.write(case["delim"].join(row) + "\r\n")
         try:
-            rd = RecordReader(p)
+            if case.get("headerless") == "uri":
+                # no header row in the file: the column names are given by the caller
+                rd = RecordReader("csvfile://" + p + "?fields=" + ",".join(case["header"]))
+            elif case.get("headerless") == "kw":
+                rd = RecordReader("csvfile://" + p, fields=",".join(case["header"]))
+            else:
+                rd = RecordReader(p)
             got, exc = drain(rd)
             rd.close()
         except Exception as e:  # noqa: BLE001
@@ -340,10 +373,13 @@ def run_case(case):
                      (["_source", names0[-1]], [names0[-1]], None), (None, ["_source", "_classification", "_generated", "_version"], "\\r")]
         line_opts += [([names0[0]], None, False), (None, [names0[0]], True), (names0 + ["zz"], ["_version"], False)]
         specs += ["{%s}" % names0[0], "{%s}-{%s}" % (names0[0], names0[-1]), "{zz}", "{%s!r}" % names0[0], "a\\t{%s}\\n" % names0[0], "{_source}|{%s}" % names0[-1],
-                  "{%s.real}/{%s[0]}" % (names0[-1], names0[0]), "{%s[0]}" % names0[0], "{_generated.year}-{%s.imag}" % names0[-1], "{%s.denominator:>4}" % names0[-1]]
+                  "{%s.real}/{%s[0]}" % (names0[-1], names0[0]), "{%s[0]}" % names0[0], "{_generated.year}-{%s.imag}" % names0[-1], "{%s.denominator:>4}" % names0[-1],
+                  "\u2192 {%s}\\t\u20ac" % names0[0], "\xe9\\n{%s}\\r\U0001f600" % names0[0], "caf\xe9 {%s}" % names0[0], "\\x41{%s}\\u0042" % names0[0]]
     for f, x, lt in csv_opts:
         n += 1
         outs.append("csv:" + csv_check(records, f, x, lt, case, viol))
+    if case["t"] == "refused-seq":
+        line_opts, specs = [], []  # refused writes are judged for the CSV writer (header bookkeeping); the others have no state to lose
     for f, x, vb in line_opts:
         n += 1
         outs.append("line:" + line_check(records, f, x, vb, case, viol))
